@@ -1,92 +1,193 @@
 ------------------------------- MODULE Batcher -------------------------------
 (* Implementation-shaped model of events/batcher/batcher.go.  The queue       *)
-(* Processor is abstracted to its contract (C06): it calls execute for one    *)
-(* due item at a time, and queue.Close() returns only when no execute runs    *)
-(* and none will.  execute holds b.lock across its (possibly blocking) sends. *)
+(* Processor is abstracted to its contract (C06): Enqueue replaces the        *)
+(* pending item of the key (and is dropped once the processor was told to     *)
+(* stop), the processor calls execute for one due item at a time, and         *)
+(* queue.Close() returns only when no execute runs and none will.  execute    *)
+(* holds b.lock across its (possibly blocking) sends.                         *)
+(* Clients run operations: in the exhaustive configurations they come from    *)
+(* the constant Progs (Start), in trace validation from the recorded call     *)
+(* events (Begin) - the operation in progress is cop[c].  Time is in ticks of *)
+(* 100 µs.                                                                    *)
 EXTENDS Integers, Sequences, FiniteSets, TLC
 
-CONSTANTS NSubs, Kinds,     \* Kinds[s] \in {"prompt", "stalled"}
+CONSTANTS NSubs,            \* subscribers are numbered 1..NSubs by their callers
           B,                \* per-subscriber buffer capacity (50 in the code)
-          NVals,            \* number of due items the processor will execute
+          Progs,            \* Progs[c]: the operations of client c: [op |-> "sub", s, kind] | [op |-> "batch", key] | [op |-> "close"]
+          Interval, MaxNow, \* the batching interval; clock bound of the exhaustive configurations
           DepartFix         \* TRUE: repaired code - a departing forwarder signals a per-subscriber channel before taking the lock
 
 Subs == 1..NSubs
+Clients == 1..Len(Progs)
+Early == 5                  \* the processor runs an item whose time is less than 0.5 ms away
 
 VARIABLES lock,             \* 0 free, 1 held by execute
-          closeCh, closed, qclosed, wg, eventChs,
-          sst, buf, depart, ctxDone, fpc, hand, recvd, chClosed,
-          epc, eidx, eval, nextV, order,
-          cpc
-vars == <<lock, closeCh, closed, qclosed, wg, eventChs, sst, buf, depart, ctxDone, fpc, hand, recvd, chClosed, epc, eidx, eval, nextV, order, cpc>>
+          closeCh, closed, wg, eventChs, nextId,
+          qstop, qclosed,   \* the processor was told to stop / queue.Close() has returned
+          q,                \* the processor's pending items [key, v, due]
+          now,
+          sst,              \* subscriber: "unsub" | "active" | "dropped"
+          sid,              \* its internal id (-1: none), assigned in lock order
+          kind,             \* its reader: "prompt" (always takes) | "stalled" (never) | "gated" (takes when rdy)
+          rdy,              \* the reader is waiting on its channel
+          buf, depart, ctxDone, fpc, hand, recvd, chClosed,
+          epc, eidx, eval, order,
+          cpc, cip, cop,    \* client: pc within the current op, index of the current op, the op in progress
+          nextV,
+          closeRet          \* some Close call has returned
+vars == <<lock, closeCh, closed, wg, eventChs, nextId, qstop, qclosed, q, now, sst, sid, kind, rdy, buf, depart, ctxDone, fpc, hand,
+          recvd, chClosed, epc, eidx, eval, order, cpc, cip, cop, nextV, closeRet>>
 
-Init == /\ lock = 0 /\ closeCh = FALSE /\ closed = FALSE /\ qclosed = FALSE /\ wg = 0 /\ eventChs = <<>>
-        /\ sst = [s \in Subs |-> "unsub"] /\ buf = [s \in Subs |-> <<>>] /\ depart = [s \in Subs |-> FALSE]
+NoOp == [op |-> "none", s |-> 0, kind |-> "", key |-> "", v |-> 0, due |-> 0]
+CurOp(c) == Progs[c][cip[c]]
+HasOp(c) == cip[c] <= Len(Progs[c])
+
+Init == /\ lock = 0 /\ closeCh = FALSE /\ closed = FALSE /\ wg = 0 /\ eventChs = <<>> /\ nextId = 0
+        /\ qstop = FALSE /\ qclosed = FALSE /\ q = {} /\ now = 0
+        /\ sst = [s \in Subs |-> "unsub"] /\ sid = [s \in Subs |-> -1] /\ kind = [s \in Subs |-> "stalled"]
+        /\ rdy = [s \in Subs |-> FALSE]
+        /\ buf = [s \in Subs |-> <<>>] /\ depart = [s \in Subs |-> FALSE]
         /\ ctxDone = [s \in Subs |-> FALSE] /\ fpc = [s \in Subs |-> "none"] /\ hand = [s \in Subs |-> 0]
         /\ recvd = [s \in Subs |-> <<>>] /\ chClosed = [s \in Subs |-> FALSE]
-        /\ epc = "idle" /\ eidx = 0 /\ eval = 0 /\ nextV = 1 /\ order = <<>> /\ cpc = "idle"
+        /\ epc = "idle" /\ eidx = 0 /\ eval = 0 /\ order = <<>>
+        /\ cpc = [c \in Clients |-> "idle"] /\ cip = [c \in Clients |-> 1] /\ cop = [c \in Clients |-> NoOp]
+        /\ nextV = 1 /\ closeRet = FALSE
 
 Remove(seq, x) == SelectSeq(seq, LAMBDA y : y # x)
 
-Subscribe(s) == /\ sst[s] = "unsub" /\ lock = 0                                   \* batcher.go:66-112
-                /\ IF closed THEN UNCHANGED <<eventChs, wg, fpc>> /\ sst' = [sst EXCEPT ![s] = "dropped"]
-                             ELSE /\ eventChs' = Append(eventChs, s) /\ wg' = wg + 1
-                                  /\ fpc' = [fpc EXCEPT ![s] = "wait"] /\ sst' = [sst EXCEPT ![s] = "active"]
-                /\ UNCHANGED <<lock, closeCh, closed, qclosed, buf, depart, ctxDone, hand, recvd, chClosed, epc, eidx, eval, nextV, order, cpc>>
-Cancel(s) == /\ sst[s] = "active" /\ ~ctxDone[s] /\ ctxDone' = [ctxDone EXCEPT ![s] = TRUE]
-             /\ UNCHANGED <<lock, closeCh, closed, qclosed, wg, eventChs, sst, buf, depart, fpc, hand, recvd, chClosed, epc, eidx, eval, nextV, order, cpc>>
+(* ---- clients: the call ---- *)
+Begin(c, o) == /\ cpc[c] = "idle"
+               /\ cop' = [cop EXCEPT ![c] = o]
+               /\ cpc' = [cpc EXCEPT ![c] = o.op]
+               /\ IF o.op = "sub" THEN /\ kind' = [kind EXCEPT ![o.s] = o.kind]
+                                       /\ rdy' = [rdy EXCEPT ![o.s] = @ \/ o.kind = "prompt"]
+                                  ELSE UNCHANGED <<kind, rdy>>
+               /\ UNCHANGED <<lock, closeCh, closed, wg, eventChs, nextId, qstop, qclosed, q, now, sst, sid, buf, depart, ctxDone, fpc, hand,
+                              recvd, chClosed, epc, eidx, eval, order, cip, closeRet>>
+Start(c) == /\ HasOp(c)
+            /\ LET o == CurOp(c) IN
+               /\ Begin(c, [op |-> o.op, s |-> IF o.op = "sub" THEN o.s ELSE 0, kind |-> IF o.op = "sub" THEN o.kind ELSE "",
+                            key |-> IF o.op = "batch" THEN o.key ELSE "", v |-> IF o.op = "batch" THEN nextV ELSE 0,
+                            due |-> IF o.op = "batch" THEN now + Interval ELSE 0])         \* Batch reads the clock first
+               /\ nextV' = IF o.op = "batch" THEN nextV + 1 ELSE nextV
+Finish(c) == /\ cpc' = [cpc EXCEPT ![c] = "idle"] /\ cip' = [cip EXCEPT ![c] = @ + 1] /\ cop' = [cop EXCEPT ![c] = NoOp]
 
-(* forwarder goroutine - batcher.go:84-111 *)
+Subscribe(c) == /\ cpc[c] = "sub" /\ lock = 0                                   \* batcher.go:66-112 (never blocks inside: one step)
+                /\ LET s == cop[c].s IN
+                   IF closed THEN /\ sst' = [sst EXCEPT ![s] = "dropped"] /\ UNCHANGED <<eventChs, wg, fpc, sid, nextId>>
+                             ELSE /\ eventChs' = Append(eventChs, s) /\ wg' = wg + 1
+                                  /\ sid' = [sid EXCEPT ![s] = nextId] /\ nextId' = nextId + 1
+                                  /\ fpc' = [fpc EXCEPT ![s] = "wait"] /\ sst' = [sst EXCEPT ![s] = "active"]
+                /\ Finish(c)
+                /\ UNCHANGED <<lock, closeCh, closed, qstop, qclosed, q, now, kind, rdy, buf, depart, ctxDone, hand, recvd, chClosed,
+                               epc, eidx, eval, order, nextV, closeRet>>
+(* the subscriber's context ends: possible as soon as its Subscribe call was issued *)
+Cancel(s) == /\ ctxDone' = [ctxDone EXCEPT ![s] = TRUE]
+             /\ UNCHANGED <<lock, closeCh, closed, wg, eventChs, nextId, qstop, qclosed, q, now, sst, sid, kind, rdy, buf, depart, fpc, hand,
+                            recvd, chClosed, epc, eidx, eval, order, cpc, cip, cop, nextV, closeRet>>
+(* a gated reader starts waiting on its channel *)
+RWait(s) == /\ rdy' = [rdy EXCEPT ![s] = TRUE]
+            /\ UNCHANGED <<lock, closeCh, closed, wg, eventChs, nextId, qstop, qclosed, q, now, sst, sid, kind, buf, depart, ctxDone, fpc, hand,
+                           recvd, chClosed, epc, eidx, eval, order, cpc, cip, cop, nextV, closeRet>>
+SetNow(t) == /\ now' = t
+             /\ UNCHANGED <<lock, closeCh, closed, wg, eventChs, nextId, qstop, qclosed, q, sst, sid, kind, rdy, buf, depart, ctxDone, fpc, hand,
+                            recvd, chClosed, epc, eidx, eval, order, cpc, cip, cop, nextV, closeRet>>
+Advance == now < MaxNow /\ SetNow(now + 1)
+
+(* Batch -> queue.Enqueue - batcher.go:131-137, processor.go:57-73 *)
+BCheck(c) == /\ cpc[c] = "batch"
+             /\ IF qstop THEN Finish(c) ELSE cpc' = [cpc EXCEPT ![c] = "enq"] /\ UNCHANGED <<cip, cop>>
+             /\ UNCHANGED <<lock, closeCh, closed, wg, eventChs, nextId, qstop, qclosed, q, now, sst, sid, kind, rdy, buf, depart, ctxDone, fpc, hand,
+                            recvd, chClosed, epc, eidx, eval, order, nextV, closeRet>>
+BIns(c) == /\ cpc[c] = "enq"
+           /\ q' = {x \in q : x.key # cop[c].key} \cup {[key |-> cop[c].key, v |-> cop[c].v, due |-> cop[c].due]}
+           /\ Finish(c)
+           /\ UNCHANGED <<lock, closeCh, closed, wg, eventChs, nextId, qstop, qclosed, now, sst, sid, kind, rdy, buf, depart, ctxDone, fpc, hand,
+                          recvd, chClosed, epc, eidx, eval, order, nextV, closeRet>>
+
+(* forwarder goroutine - batcher.go:84-123; Go's select takes any ready arm *)
 FwdWait(s) == /\ fpc[s] = "wait"
               /\ \/ (ctxDone[s] \/ closeCh) /\ fpc' = [fpc EXCEPT ![s] = "exit"] /\ UNCHANGED <<buf, hand>>
                  \/ buf[s] # <<>> /\ hand' = [hand EXCEPT ![s] = Head(buf[s])] /\ buf' = [buf EXCEPT ![s] = Tail(@)]
                     /\ fpc' = [fpc EXCEPT ![s] = "got"]
-              /\ UNCHANGED <<lock, closeCh, closed, qclosed, wg, eventChs, sst, depart, ctxDone, recvd, chClosed, epc, eidx, eval, nextV, order, cpc>>
+              /\ UNCHANGED <<lock, closeCh, closed, wg, eventChs, nextId, qstop, qclosed, q, now, sst, sid, kind, rdy, depart, ctxDone, recvd,
+                             chClosed, epc, eidx, eval, order, cpc, cip, cop, nextV, closeRet>>
 FwdGot(s) == /\ fpc[s] = "got"                                                       \* inner select: ch <- env | ctx | closeCh, then loop
-             /\ \/ (ctxDone[s] \/ closeCh) /\ fpc' = [fpc EXCEPT ![s] = "wait"] /\ UNCHANGED recvd    \* value dropped
-                \/ Kinds[s] = "prompt" /\ recvd' = [recvd EXCEPT ![s] = Append(@, hand[s])] /\ fpc' = [fpc EXCEPT ![s] = "wait"]
-             /\ UNCHANGED <<lock, closeCh, closed, qclosed, wg, eventChs, sst, buf, depart, ctxDone, hand, chClosed, epc, eidx, eval, nextV, order, cpc>>
+             /\ \/ (ctxDone[s] \/ closeCh) /\ fpc' = [fpc EXCEPT ![s] = "wait"] /\ UNCHANGED <<recvd, rdy>>    \* value dropped
+                \/ /\ rdy[s] /\ recvd' = [recvd EXCEPT ![s] = Append(@, hand[s])] /\ fpc' = [fpc EXCEPT ![s] = "wait"]
+                   /\ rdy' = [rdy EXCEPT ![s] = (kind[s] = "prompt")]
+             /\ UNCHANGED <<lock, closeCh, closed, wg, eventChs, nextId, qstop, qclosed, q, now, sst, sid, kind, buf, depart, ctxDone, hand,
+                            chClosed, epc, eidx, eval, order, cpc, cip, cop, nextV, closeRet>>
 FwdDepart(s) == /\ DepartFix /\ fpc[s] = "exit" /\ depart' = [depart EXCEPT ![s] = TRUE] /\ fpc' = [fpc EXCEPT ![s] = "unreg"]
-                /\ UNCHANGED <<lock, closeCh, closed, qclosed, wg, eventChs, sst, buf, ctxDone, hand, recvd, chClosed, epc, eidx, eval, nextV, order, cpc>>
-FwdUnreg(s) == /\ fpc[s] = (IF DepartFix THEN "unreg" ELSE "exit") /\ lock = 0      \* :86-96 lock; close(ch); remove; unlock; wg.Done
+                /\ UNCHANGED <<lock, closeCh, closed, wg, eventChs, nextId, qstop, qclosed, q, now, sst, sid, kind, rdy, buf, ctxDone, hand, recvd,
+                               chClosed, epc, eidx, eval, order, cpc, cip, cop, nextV, closeRet>>
+FwdUnreg(s) == /\ fpc[s] = (IF DepartFix THEN "unreg" ELSE "exit") /\ lock = 0      \* lock; close(ch); remove; unlock
                /\ chClosed' = [chClosed EXCEPT ![s] = TRUE]
-               /\ eventChs' = Remove(eventChs, s) /\ wg' = wg - 1 /\ fpc' = [fpc EXCEPT ![s] = "done"]
-               /\ UNCHANGED <<lock, closeCh, closed, qclosed, sst, buf, depart, ctxDone, hand, recvd, epc, eidx, eval, nextV, order, cpc>>
+               /\ eventChs' = Remove(eventChs, s) /\ fpc' = [fpc EXCEPT ![s] = "unregd"]
+               /\ UNCHANGED <<lock, closeCh, closed, wg, nextId, qstop, qclosed, q, now, sst, sid, kind, rdy, buf, depart, ctxDone, hand, recvd,
+                              epc, eidx, eval, order, cpc, cip, cop, nextV, closeRet>>
+FwdDone(s) == /\ fpc[s] = "unregd" /\ wg' = wg - 1 /\ fpc' = [fpc EXCEPT ![s] = "done"]        \* wg.Done
+              /\ UNCHANGED <<lock, closeCh, closed, eventChs, nextId, qstop, qclosed, q, now, sst, sid, kind, rdy, buf, depart, ctxDone, hand, recvd,
+                             chClosed, epc, eidx, eval, order, cpc, cip, cop, nextV, closeRet>>
 
-(* execute, called by the processor for one due item - batcher.go:114-126 *)
-EStart == /\ epc = "idle" /\ nextV <= NVals /\ ~qclosed /\ lock = 0
-          /\ IF closed THEN /\ nextV' = nextV + 1 /\ UNCHANGED <<lock, epc, eidx, eval, order>>
-                       ELSE /\ lock' = 1 /\ epc' = "loop" /\ eidx' = 1 /\ eval' = nextV /\ nextV' = nextV + 1
-                            /\ order' = Append(order, nextV)
-          /\ UNCHANGED <<closeCh, closed, qclosed, wg, eventChs, sst, buf, depart, ctxDone, fpc, hand, recvd, chClosed, cpc>>
+(* the processor: pops a due item and calls execute - processor.go:220-240, batcher.go:125-139 *)
+EPop == /\ epc = "idle" /\ ~qclosed
+        /\ \E it \in q : /\ it.due - now < Early
+                         /\ q' = q \ {it} /\ eval' = it.v
+        /\ epc' = "exec"
+        /\ UNCHANGED <<lock, closeCh, closed, wg, eventChs, nextId, qstop, qclosed, now, sst, sid, kind, rdy, buf, depart, ctxDone, fpc, hand,
+                       recvd, chClosed, eidx, order, cpc, cip, cop, nextV, closeRet>>
+EStart == /\ epc = "exec" /\ lock = 0
+          /\ IF closed THEN /\ epc' = "idle" /\ UNCHANGED <<lock, eidx, order>>
+                       ELSE /\ lock' = 1 /\ epc' = "loop" /\ eidx' = 1 /\ order' = Append(order, eval)
+          /\ UNCHANGED <<closeCh, closed, wg, eventChs, nextId, qstop, qclosed, q, now, sst, sid, kind, rdy, buf, depart, ctxDone, fpc, hand,
+                         recvd, chClosed, eval, cpc, cip, cop, nextV, closeRet>>
 ESend == /\ epc = "loop" /\ eidx <= Len(eventChs)
          /\ LET s == eventChs[eidx] IN
             \/ closeCh /\ UNCHANGED buf
             \/ DepartFix /\ depart[s] /\ UNCHANGED buf
             \/ Len(buf[s]) < B /\ buf' = [buf EXCEPT ![s] = Append(@, eval)]
          /\ eidx' = eidx + 1
-         /\ UNCHANGED <<lock, closeCh, closed, qclosed, wg, eventChs, sst, depart, ctxDone, fpc, hand, recvd, chClosed, epc, eval, nextV, order, cpc>>
+         /\ UNCHANGED <<lock, closeCh, closed, wg, eventChs, nextId, qstop, qclosed, q, now, sst, sid, kind, rdy, depart, ctxDone, fpc, hand,
+                        recvd, chClosed, epc, eval, order, cpc, cip, cop, nextV, closeRet>>
 EEnd == /\ epc = "loop" /\ eidx > Len(eventChs) /\ lock' = 0 /\ epc' = "idle"
-        /\ UNCHANGED <<closeCh, closed, qclosed, wg, eventChs, sst, buf, depart, ctxDone, fpc, hand, recvd, chClosed, eidx, eval, nextV, order, cpc>>
+        /\ UNCHANGED <<closeCh, closed, wg, eventChs, nextId, qstop, qclosed, q, now, sst, sid, kind, rdy, buf, depart, ctxDone, fpc, hand,
+                       recvd, chClosed, eidx, eval, order, cpc, cip, cop, nextV, closeRet>>
 
-(* Close - batcher.go:142-150 *)
-CloseQueue == /\ cpc = "idle" /\ epc = "idle" /\ qclosed' = TRUE /\ cpc' = "locking"    \* queue.Close(): waits for a running execute
-              /\ UNCHANGED <<lock, closeCh, closed, wg, eventChs, sst, buf, depart, ctxDone, fpc, hand, recvd, chClosed, epc, eidx, eval, nextV, order>>
-CloseLock == /\ cpc = "locking" /\ lock = 0 /\ closed' = TRUE /\ closeCh' = TRUE /\ cpc' = "wait"
-             /\ UNCHANGED <<lock, qclosed, wg, eventChs, sst, buf, depart, ctxDone, fpc, hand, recvd, chClosed, epc, eidx, eval, nextV, order>>
-CloseWait == /\ cpc = "wait" /\ wg = 0 /\ cpc' = "done"
-             /\ UNCHANGED <<lock, closeCh, closed, qclosed, wg, eventChs, sst, buf, depart, ctxDone, fpc, hand, recvd, chClosed, epc, eidx, eval, nextV, order>>
+(* Close - batcher.go:153-162 *)
+CloseStop(c) == /\ cpc[c] = "close" /\ qstop' = TRUE /\ cpc' = [cpc EXCEPT ![c] = "cq"]       \* queue.Close(): stopped := true ...
+                /\ UNCHANGED <<lock, closeCh, closed, wg, eventChs, nextId, qclosed, q, now, sst, sid, kind, rdy, buf, depart, ctxDone, fpc, hand,
+                               recvd, chClosed, epc, eidx, eval, order, cip, cop, nextV, closeRet>>
+CloseQueue(c) == /\ cpc[c] = "cq" /\ epc = "idle" /\ qclosed' = TRUE /\ cpc' = [cpc EXCEPT ![c] = "clock"]    \* ... and waits for a running execute
+                 /\ UNCHANGED <<lock, closeCh, closed, wg, eventChs, nextId, qstop, q, now, sst, sid, kind, rdy, buf, depart, ctxDone, fpc, hand,
+                                recvd, chClosed, epc, eidx, eval, order, cip, cop, nextV, closeRet>>
+CloseLock(c) == /\ cpc[c] = "clock" /\ lock = 0 /\ closed' = TRUE /\ closeCh' = TRUE /\ cpc' = [cpc EXCEPT ![c] = "cwait"]
+                /\ UNCHANGED <<lock, wg, eventChs, nextId, qstop, qclosed, q, now, sst, sid, kind, rdy, buf, depart, ctxDone, fpc, hand,
+                               recvd, chClosed, epc, eidx, eval, order, cip, cop, nextV, closeRet>>
+CloseWait(c) == /\ cpc[c] = "cwait" /\ wg = 0 /\ Finish(c) /\ closeRet' = TRUE
+                /\ UNCHANGED <<lock, closeCh, closed, wg, eventChs, nextId, qstop, qclosed, q, now, sst, sid, kind, rdy, buf, depart, ctxDone, fpc, hand,
+                               recvd, chClosed, epc, eidx, eval, order, nextV>>
 
-Internal == \/ \E s \in Subs : FwdWait(s) \/ FwdGot(s) \/ FwdDepart(s) \/ FwdUnreg(s)
-            \/ EStart \/ ESend \/ EEnd \/ CloseQueue \/ CloseLock \/ CloseWait
-Stalled == {s \in Subs : Kinds[s] = "stalled"}
-Next == Internal \/ \E s \in Subs : Subscribe(s) \/ Cancel(s)
-(* fairness: the component's goroutines keep going, everybody subscribes, and a stalled subscriber eventually leaves *)
-Spec == Init /\ [][Next]_vars /\ WF_vars(Internal) /\ (\A s \in Subs : WF_vars(Subscribe(s))) /\ (\A t \in Stalled : WF_vars(Cancel(t)))
+FwdStep == \E s \in Subs : FwdWait(s) \/ FwdGot(s) \/ FwdDepart(s) \/ FwdUnreg(s) \/ FwdDone(s)
+ExecStep == EPop \/ EStart \/ ESend \/ EEnd
+OpStep(c) == Subscribe(c) \/ BCheck(c) \/ BIns(c) \/ CloseStop(c) \/ CloseQueue(c) \/ CloseLock(c) \/ CloseWait(c)
+Internal == FwdStep \/ ExecStep \/ \E c \in Clients : Start(c) \/ OpStep(c)
+Called(s) == sst[s] = "active" \/ \E c \in Clients : cop[c].op = "sub" /\ cop[c].s = s
+CancelSub(s) == Called(s) /\ ~ctxDone[s] /\ Cancel(s)
+Env == \/ \E s \in Subs : CancelSub(s) \/ (kind[s] = "gated" /\ ~rdy[s] /\ RWait(s))
+       \/ Advance
+(* Begin only touches the caller's own state: a call that starts as soon as the previous one returned loses no behaviour. *)
+(* The exhaustive configurations without a clock (a Batch call reads the clock first) use that to save states.             *)
+Eager == MaxNow = 0 /\ \E c \in Clients : cpc[c] = "idle" /\ HasOp(c)
+Next == IF Eager THEN \E c \in Clients : Start(c) ELSE Internal \/ Env
+(* fairness: the component's goroutines and the callers keep going, time passes, and a stalled subscriber eventually leaves *)
+Spec == Init /\ [][Next]_vars /\ WF_vars(Internal) /\ WF_vars(Advance)
+             /\ \A t \in Subs : WF_vars(kind[t] = "stalled" /\ CancelSub(t))
 
 IsSubseq(a, b) == \E f \in [1..Len(a) -> 1..Len(b)] : (\A i \in 1..Len(a) : b[f[i]] = a[i]) /\ (\A i, j \in 1..Len(a) : i < j => f[i] < f[j])
 CommonOrder == \A s \in Subs : IsSubseq(recvd[s], order)
-ChannelsClosedAtReturn == cpc = "done" => \A s \in Subs : sst[s] = "active" => chClosed[s]
-QuietAfterClose == [][cpc = "done" => recvd' = recvd]_vars
+ChannelsClosedAtReturn == closeRet => \A s \in Subs : sst[s] = "active" => chClosed[s]
+QuietAfterClose == [][closeRet => recvd' = recvd]_vars
 (* a departed subscriber never wedges delivery or Close *)
-CloseReturns == <>(cpc = "done")
+CloseReturns == <>closeRet
 =============================================================================
